@@ -23,7 +23,7 @@ Fixpoint grow_moves_from (fuel : nat) (i bot mask newmask : N) : list ((N * N) *
   | S f =>
     if i <? bot then
       let oldI := N.land i mask in
-      let newI := wmod i newmask in
+      let newI := N.land i newmask in
       if negb (oldI =? newI) then (slot_of oldI, slot_of newI) :: grow_moves_from f (wadd 64 i 1) bot mask newmask
       else []
     else []
